@@ -7,6 +7,7 @@ import (
 	"encoding/json"
 	"fmt"
 	"go.dedis.ch/kyber/v3/util/encoding"
+	"io"
 	"io/ioutil"
 	"math/rand"
 	"os"
@@ -19,6 +20,7 @@ import (
 	"strings"
 	"sync"
 	"sync/atomic"
+	"testing/iotest"
 	"time"
 
 	"github.com/BurntSushi/toml"
@@ -229,6 +231,14 @@ func c18ensure(file, text string) {
 
 // c18readGroup parses a group file; dump "err" / "panic" / "ok …"; note = oracle complaint.
 func c18readGroup(file string) (dump string, g *app.Group, note string) {
+	return c18readGroupVia(file, 0)
+}
+
+// c18readerModes: how the bytes of the file reach ReadGroupDescToml (an io.Reader may return fewer bytes than asked
+// for, one at a time, or the last bytes together with io.EOF): the identities must not depend on it
+var c18readerModes = []string{"file", "one byte per Read", "half of what is asked for per Read", "last bytes together with EOF", "a pipe written table by table"}
+
+func c18readGroupVia(file string, mode int) (dump string, g *app.Group, note string) {
 	defer func() {
 		if r := recover(); r != nil {
 			dump, g = "panic", nil
@@ -244,7 +254,35 @@ func c18readGroup(file string) (dump string, g *app.Group, note string) {
 		}
 	}
 	defer f.Close()
-	g, err = app.ReadGroupDescToml(f)
+	var rd io.Reader = f
+	switch mode {
+	case 1:
+		rd = iotest.OneByteReader(f)
+	case 2:
+		rd = iotest.HalfReader(f)
+	case 3:
+		rd = iotest.DataErrReader(f)
+	case 4:
+		all, _ := ioutil.ReadAll(f)
+		pr, pw := io.Pipe()
+		go func() {
+			rest := string(all)
+			for len(rest) > 0 {
+				cut := strings.Index(rest[1:], "[[")
+				if cut < 0 {
+					cut = len(rest) - 1
+				}
+				if _, err := pw.Write([]byte(rest[:cut+1])); err != nil {
+					break // the reader has gone
+				}
+				rest = rest[cut+1:]
+			}
+			pw.Close()
+		}()
+		defer pr.Close()
+		rd = pr
+	}
+	g, err = app.ReadGroupDescToml(rd)
 	if err != nil {
 		return "err", nil, ""
 	}
@@ -652,8 +690,11 @@ func c18exec(c *h.Ctx, cs *h.Case) {
 			}
 			for i := 1; i < n; i++ {
 				c18ensure(file, text)
-				if d, _, _ := c18readGroup(file); d != first {
-					cs.Fail("parses-disagree", fmt.Sprintf("parse %d of the same file differs from parse 1:\n%s\n%s", i+1, first, d))
+				// the re-reads take the bytes through readers that deliver them differently (i = 1: one byte per Read,
+				// 2: half reads, 3: data together with EOF, 4: the file itself again, ...)
+				mode := i % len(c18readerModes)
+				if d, _, _ := c18readGroupVia(file, mode); d != first {
+					cs.Fail("parses-disagree", fmt.Sprintf("parse %d of the same file (bytes delivered as: %s) differs from parse 1:\n%s\n%s", i+1, c18readerModes[mode], first, d))
 					break
 				}
 			}
@@ -1797,7 +1838,7 @@ func c18generate(c *h.Ctx, yield func(*h.Case)) {
 	pre := c18preambleOps()
 	n := 0
 	textLevel := false // the next cases are text-level ones
-	usesNext := false // the next group case with a write suite gets a `uses` op for sure
+	usesNext := false  // the next group case with a write suite gets a `uses` op for sure
 	// names asked for through the accessors: registered services (with and without entry in the file), the same
 	// in another letter case, a prefix, an extension, a name nobody has
 	accNames := func() string {
